@@ -81,8 +81,23 @@ def run(rep):
     short = q.replace('crate::', '')
     callers = 0
     # (function, index of its source parameter, index of its include-path parameter) - followed upwards to the public functions
-    f_params = [p['pat']['name'] for p in f['params']]
-    work = [(short, f_params.index(strs[0]['pat']['name']), f_params.index(opts[0]['pat']['name']))]
+    real = [p['pat']['name'] for p in f['params'] if not p.get('synthetic')]
+
+    def pref(name):
+        # a parameter of its own, or a field of a parameter that bundles the text arguments (`source: ShaderSource { wgsl_source, wgsl_include_path }`)
+        return (real.index(name), None) if name in real else (real.index(name.split('.', 1)[0]), name.split('.', 1)[1])
+
+    def arg_of(cb, t, ref):
+        i, fld = ref
+        a = t['args'][i] if i < len(t['args']) else None
+        if fld is None or a is None or not op_place(a):
+            return a
+        root = canon(cb, op_place(a))
+        for _, kind, x in cb.defs().get(root[0], []):
+            if kind == 'assign' and x['rv']['rk'] == 'aggregate' and fld in (x['rv'].get('fields') or []) and not x['lhs']['p']:
+                return x['rv']['ops'][x['rv']['fields'].index(fld)]
+        return None
+    work = [(short, pref(strs[0]['pat']['name']), pref(opts[0]['pat']['name']))]
     done = set()
     while work:
         fn, si, pi = work.pop()
@@ -94,12 +109,18 @@ def run(rep):
                 if cname(t) != fn:
                     continue
                 callers += 1
-                a = t['args'][si]
+                a = arg_of(cb, t, si)
+                if a is None:
+                    rep.bad('C16.wrapper-passthrough', f'source:{cn}', cb.where(bb), f'cannot find the source text among the arguments {cn} hands to {fn}', undecided=True)
+                    continue
                 r = canon(cb, op_place(a)) if op_place(a) else None
                 ok = r is not None and 1 <= r[0] <= cb.arg_count and r[1] in ('', '&', '*') and 'str' in cb.locals[r[0]]
                 rep.check(ok, 'C16.wrapper-passthrough', f'source:{cn}', cb.where(bb),
                           f'{cn} does not pass its own source parameter unchanged to {fn} (root {r}): the embedded text differs from the caller\'s input', ok_detail='source forwarded unchanged')
-                a2 = t['args'][pi]
+                a2 = arg_of(cb, t, pi)
+                if a2 is None:
+                    rep.bad('C16.wrapper-passthrough', f'include-path:{cn}', cb.where(bb), f'cannot find the include path among the arguments {cn} hands to {fn}', undecided=True)
+                    continue
                 okp = 'const' in a2
                 nxt_pi = None
                 if not okp and op_place(a2):
@@ -117,7 +138,7 @@ def run(rep):
                 rep.check(okp, 'C16.wrapper-passthrough', f'include-path:{cn}', cb.where(bb),
                           f'{cn} does not pass None / Some(its own path parameter) / its own Option parameter unchanged as the include path', ok_detail='include path forwarded unchanged')
                 if ok and not cb.j['pub'] and nxt_pi is not None:
-                    work.append((cn, r[0] - 1, nxt_pi))
+                    work.append((cn, (r[0] - 1, None), (nxt_pi, None)))
     rep.floor('public wrappers calling the generating function', callers, 2)
     from common import include
     include(rep, 'c17', ('C17.1.parse-input',), 'parsed-text-is-the-input')
